@@ -244,10 +244,11 @@ class GoCheck:
             if t.get("q_unknown"):
                 pass  # unknowns surface as incomplete paths
         # vacuity: every statically present assertion label reached somewhere
-        wanted = static_labels(hfiles)
+        lfiles = hfiles
         if harnesses:
-            # only labels of the selected harnesses can be expected; approximate by prefix-free check
-            pass
+            # only the files that define a selected harness contribute expected labels
+            lfiles = [f for f in hfiles if any(re.search(r"func %s\(" % h, open(f).read()) for h in harnesses)]
+        wanted = static_labels(lfiles)
         reached = set()
         for t in tasks:
             for k, v in (t.get("reached") or {}).items():
